@@ -83,6 +83,9 @@ func (h *DirHandler) AddOut(msg *fbb.Message) error {
 func (h *DirHandler) ProcessInbound(msgs ...*fbb.Message) (err error) {
 	dir := path.Join(h.MBoxPath, DIR_INBOX)
 	for _, m := range msgs {
+		if !validMID(m.MID()) {
+			return fmt.Errorf("Unable to store received message: invalid MID %q", m.MID())
+		}
 		filename := path.Join(dir, m.MID()+Ext)
 
 		m.Header.Set("X-Unread", "true")
@@ -105,6 +108,11 @@ func (h *DirHandler) GetInboundAnswer(p fbb.Proposal) fbb.ProposalAnswer {
 	}
 
 	// Check if file exists
+	if !validMID(p.MID()) {
+		log.Printf("Deferring proposal with invalid MID %q", p.MID())
+		return fbb.Defer
+	}
+
 	f, err := os.Open(path.Join(h.MBoxPath, DIR_INBOX, p.MID()+Ext))
 	if err == nil {
 		f.Close()
@@ -119,6 +127,11 @@ func (h *DirHandler) GetInboundAnswer(p fbb.Proposal) fbb.ProposalAnswer {
 }
 
 func (h *DirHandler) SetSent(MID string, rejected bool) {
+	if !validMID(MID) {
+		log.Printf("Unable to mark message as sent: invalid MID %q", MID)
+		return
+	}
+
 	oldPath := path.Join(h.MBoxPath, DIR_OUTBOX, MID+Ext)
 	newPath := path.Join(h.MBoxPath, DIR_SENT, MID+Ext)
 
@@ -165,6 +178,20 @@ func (h *DirHandler) GetOutbound(fws ...fbb.Address) []*fbb.Message {
 		deliver = append(deliver, m)
 	}
 	return deliver
+}
+
+// validMID reports whether MID can be used as a file name inside a mailbox folder.
+//
+// The MID of an inbound message or proposal is chosen by the remote station. It must never be able to
+// address a file outside the folder (path separators, dot-dot) or be truncated by the OS (NUL).
+func validMID(MID string) bool {
+	switch {
+	case MID == "" || MID == "." || MID == "..":
+		return false
+	case strings.ContainsAny(MID, "/\\\x00"):
+		return false
+	}
+	return true
 }
 
 // stripPrivateHeaders removes the header fields that are only meaningful to the local mailbox.
